@@ -3,6 +3,7 @@ import PyYetiVerif.Model.Binify
 import PyYetiVerif.Model.Fde
 import PyYetiVerif.Model.Rainflow
 import PyYetiVerif.Model.FdePsd
+import PyYetiVerif.Model.FdePsdInf
 import PyYetiVerif.Model.FindapFix
 import PyYetiVerif.Model.BinifyLabels
 import PyYetiVerif.Model.FindapLocate
@@ -183,6 +184,15 @@ def answer (line : String) : String :=
           | some o => s!"{fmtFs [o.srs, o.var, o.tab.row.amax]} {fmtTab o.tab}"
           | none => "value-error"
       | _, _, _, _, _, _, _ => "bad-op"
+  | ["g2x", am] :: lv :: [ct] =>
+      match parseF am, parseFs lv, parseFs ct with
+      | some am, some lv, some ct =>
+          match Fde.g2maxX am lv ct with
+          | .fin v => s!"fin {fmtF v}"
+          | .pinf => "pinf"
+          | .ninf => "ninf"
+          | .nan => "nan"
+      | _, _, _ => "bad-op"
   | ["ft", rs, q, f, t0, n] :: [cs] =>
       match parseResp rs, parseF q, parseF f, parseF t0, n.toNat?,
             (parseCycles' cs) with
